@@ -163,7 +163,8 @@ def lin_exact(a, ctrl, s0, t):
     Closed form of  ds_i/dt = a*s_i + u  at time t, all components.
 
     ctrl = ("const", v): u = v         -> s_i = s_i0 e^{at} + v (e^{at}-1)/a
-    ctrl = ("ks0", k):   u = k * s_0   -> s_i = (s_i0-s_00) e^{at} + s_00 e^{(a+k)t}
+    ctrl = ("ks0", k):   u = k * s_0
+                         -> s_i = (s_i0 - s_00) e^{at} + s_00 e^{(a+k)t}
     Returns (state list, control value).
     """
     kind, p = ctrl
